@@ -13,7 +13,10 @@ Definition intle2bitstore (i n : Z) (signed : bool) : res bits :=
   do b <- int2bitstore i n signed; Ok (frombytes (rev (tobytes b))).
 
 (* ---------- _setuint / _setint / _setuintbe / _setintbe / _setuintle / _setintle ----------
-   cur_len = len(self) when the object already exists (property assignment), 0 for an object under construction *)
+   cur_len = len(self) when the object already exists (property assignment), 0 for an object under construction.
+   This is the part the six setters share. The `length % 8` check of the four endian setters (added to the library by the repair D42) is NOT
+   here: on the creation routes it is made by get_dtype (the allowed lengths of the register), which every case goes through first; for
+   property assignment to an existing object the complete model is DtypeLen.set_endian (DtypeLen.v, C15_assignment_keeps_length). *)
 Definition set_intlike (signed le : bool) (cur_len : Z) (v : Z) (length : option Z) : res bits :=
   let length := match length with
                 | None => if cur_len =? 0 then None else Some cur_len
